@@ -8,9 +8,10 @@ from .nf import Poly, Tup, Const, Slice, app, as_poly, NONE
 ELEMENTWISE_UNARY = {
     'exp', 'expm1', 'log', 'log10', 'sin', 'cos', 'tan', 'sinc', 'deg2rad', 'radians',
     'rad2deg', 'angle', 'real', 'imag', 'conj', 'conjugate', 'fix', 'rint', 'round', 'around',
-    'isinf', 'isnan', 'isfinite', 'invert', 'logical_not', 'sign', 'arctan', 'arcsin', 'arccos',
+    'isinf', 'isnan', 'isfinite', 'invert', 'logical_not', 'sign', 'arctan', 'arcsin', 'arccos', 'trunc',
 }
-ALIAS = {'conjugate': 'conj', 'absolute': 'abs', 'around': 'round', 'radians': 'deg2rad', 'rint': 'round'}
+# trunc and fix both round toward zero
+ALIAS = {'conjugate': 'conj', 'absolute': 'abs', 'around': 'round', 'radians': 'deg2rad', 'rint': 'round', 'trunc': 'fix'}
 
 
 def is_vec(v):
